@@ -12,14 +12,17 @@
    handle_connection already cleared when the close event was queued (not from the events handled so far).
    Connection state bits (rd/wr) are set where server.py sets them: rd cleared by the environment on EOF, wr
    cleared by a half close, both cleared by a full close.
-   Message number n has content <<n>>; an addon edit in the message hook makes it <<n + EditOffset>> or <<>>.  *)
+   An injection is checked against the destination's CAN_WRITE bit when relay_messages handles it (not when it
+   is queued).  Message number n has content <<n>>; an addon edit in the message hook makes it <<n + EditOffset>> or <<>>.  *)
 EXTENDS Mon_RawRelay, TLC
 CONSTANTS Protos,       \* subset of {"tcp", "udp"}
           PreOpen,      \* subset of BOOLEAN: is the server connection already established when the layer starts
           MaxMsgs,      \* arrivals + injections per behaviour
           MaxInject,
           Edits,        \* subset of {"keep", "edit", "empty"}
-          EditOffset
+          EditOffset,
+          InjectGuard   \* TRUE: TCPLayer refuses an injection whose destination has lost CAN_WRITE (/repo 0ee071cc8);
+                        \* FALSE: the code before that fix (records it and writes after the half close, C29-F2)
 VARIABLES proto, pre,
           started,      \* Start has been fed
           hs,           \* _handle_event: "start", "relay", "done"
@@ -61,9 +64,11 @@ CloseFull(w, p) == [w EXCEPT !.rd[p] = FALSE, !.wr[p] = FALSE, !.fullc[p] = TRUE
 CloseHalf(w, p) == [w EXCEPT !.wr[p] = FALSE, !.out = Append(@, [k |-> "close", to |-> p, half |-> TRUE])]
 FireEnd(w) == [w EXCEPT !.pend = "end", !.out = Append(@, Hook("end", None, <<>>))]
 
-\* relay_messages / done for one event e = [t, from, n]
+\* relay_messages / done for one event e = [t, from, n, inj]
 Proc(w, e) ==
   IF w.hs # "relay" THEN w          \* done(): yield from ()
+  ELSE IF e.t = "data" /\ e.inj /\ InjectGuard /\ proto = "tcp" /\ ~w.wr[Other(e.from)]
+    THEN w                          \* TcpMessageInjected towards a peer that cannot be written to: Log, return
   ELSE IF e.t = "data" THEN         \* DataReceived or the spoofed event made from a *MessageInjected
     [w EXCEPT !.msgs = Append(@, [from |-> e.from, ids |-> <<e.n>>]), !.pend = "msg",
               !.out = Append(@, Hook("message", e.from, <<e.n>>))]
@@ -90,13 +95,13 @@ Start ==
 
 DataIn(p) ==
   /\ Live /\ CanTalk(p) /\ nxt <= MaxMsgs /\ nxt' = nxt + 1
-  /\ Commit(Deliver(W0([k |-> "in", from |-> p, ids |-> <<nxt>>]), [t |-> "data", from |-> p, n |-> nxt]))
+  /\ Commit(Deliver(W0([k |-> "in", from |-> p, ids |-> <<nxt>>]), [t |-> "data", from |-> p, n |-> nxt, inj |-> FALSE]))
   /\ UNCHANGED <<proto, pre, started, conn, finA, echoed, ninj>>
 
 \* Proxyserver.inject_tcp / inject_udp -> server_event(TcpMessageInjected)
 Inject(p) ==
   /\ Live /\ started /\ nxt <= MaxMsgs /\ ninj < MaxInject /\ nxt' = nxt + 1 /\ ninj' = ninj + 1
-  /\ Commit(Deliver(W0([k |-> "inject", from |-> p, ids |-> <<nxt>>]), [t |-> "data", from |-> p, n |-> nxt]))
+  /\ Commit(Deliver(W0([k |-> "inject", from |-> p, ids |-> <<nxt>>]), [t |-> "data", from |-> p, n |-> nxt, inj |-> TRUE]))
   /\ UNCHANGED <<proto, pre, started, conn, finA, echoed>>
 
 \* handle_connection: EOF. TCP: state &= ~CAN_READ; UDP: state = CLOSED; then ConnectionClosed is fed
@@ -104,14 +109,14 @@ Fin(p) ==
   /\ Live /\ CanTalk(p) /\ finA' = [finA EXCEPT ![p] = TRUE]
   /\ LET w0 == W0([k |-> "fin", from |-> p])
          w1 == IF proto = "tcp" THEN [w0 EXCEPT !.rd[p] = FALSE] ELSE [w0 EXCEPT !.rd[p] = FALSE, !.wr[p] = FALSE]
-     IN Commit(Deliver(w1, [t |-> "fin", from |-> p, n |-> 0]))
+     IN Commit(Deliver(w1, [t |-> "fin", from |-> p, n |-> 0, inj |-> FALSE]))
   /\ UNCHANGED <<proto, pre, started, conn, echoed, nxt, ninj>>
 
 \* close_connection cancelled the handler of a connection whose peer had not closed: it reports ConnectionClosed
 Echo(p) ==
   /\ Live /\ started /\ fullc[p] /\ ~finA[p] /\ ~echoed[p] /\ (p = "c" \/ conn)
   /\ echoed' = [echoed EXCEPT ![p] = TRUE]
-  /\ Commit(Deliver(W0([k |-> "echo", from |-> p]), [t |-> "fin", from |-> p, n |-> 0]))
+  /\ Commit(Deliver(W0([k |-> "echo", from |-> p]), [t |-> "fin", from |-> p, n |-> 0, inj |-> FALSE]))
   /\ UNCHANGED <<proto, pre, started, conn, finA, nxt, ninj>>
 
 \* tcp_start / udp_start completes: TCPLayer.start continues
